@@ -157,6 +157,7 @@ Definition dec_result (fuel : nat) (v : gval) : res wresult :=
       u <- f_uuid (obj_get o s_uuid) ;;
       rows <- f_list (dec_row fuel) (obj_get o s_rows) ;;
       Ok (mkWRes c e d u rows)
+  | GNull => Ok (mkWRes 0 s_empty s_empty s_empty [])   (* null leaves a struct as it was: the zero value *)
   | _ => Err EOther
   end.
 
@@ -190,6 +191,7 @@ Definition dec_monreq (fuel : nat) (v : gval) : res wmonreq :=
       wh <- f_list (dec_condition fuel) (obj_get o s_where) ;;
       sel <- f_pselect (obj_get o s_select) ;;
       Ok (mkWMon cols wh sel)
+  | GNull => Ok (mkWMon None [] None)
   | _ => Err EOther
   end.
 
